@@ -33,7 +33,9 @@ function mkSer(state) {
     switch (typeof x) {
       case 'undefined': return 'undefined';
       case 'number': return Object.is(x, -0) ? '-0' : String(x);
-      case 'string': return JSON.stringify(x);
+      case 'string':
+        if (x.length > 8 && /\bfunction\b|=>|\bclass\b|\[native code\]/.test(x) && /[{(]/.test(x)) state.reflect = true; // source text of a function leaked into a value
+        return JSON.stringify(x);
       case 'boolean': return String(x);
       case 'bigint': return x + 'n';
       case 'symbol': return 'Symbol(' + String(x.description) + ')';
@@ -205,6 +207,7 @@ function runOne(src, probes, timeout) {
   if (state.tdz) status = status === 'ok' ? 'tdz' : status;
   else if (state.stack && status === 'ok') status = 'stack';
   if (state.overflow && status === 'ok') status = 'traceoverflow';
+  if (state.reflect && status === 'ok') status = 'reflection';
   return { status, comp, trace, gl, ms };
 }
 
